@@ -7,15 +7,17 @@
      - L2 in full (C02_delivery_exact, C02_setoffset_next, C02_generation_exact, ...), with the
        contract as an explicit hypothesis on labels;
      - C02_conn_offset_advances in full, for arbitrary response bytes;
-     - L1 decoding: proved for layouts of uncompressed v2 batches, every offset and legal cut
-       (C02_batch_decode_exact_v2_uncompressed_partial, linked to L2 by
-       C02_contract_v2_uncompressed); the full statement is kept as a Definition.
+     - L1 decoding: proved for layouts of uncompressed v2 batches and for layouts of uncompressed
+       v0/v1 messages, every offset and legal cut (C02_batch_decode_exact_v2_uncompressed_partial,
+       C02_batch_decode_exact_legacy_uncompressed_partial, each linked to L2 by a C02_contract_*
+       theorem); the full statement is kept as a Definition.
    Three defects of the code found by this check (F1 and two more) were fixed in /repo; their
    witnesses are kept below as regression Examples. *)
 From Coq Require Import List NArith ZArith Bool.
 From KV Require Import Lib.Bits Lib.Bytes Lib.Varint Model.MsgSetReader Model.ReaderModel Spec.FetchSpec
   Proofs.ReaderBatch Proofs.ReaderProofs Proofs.ReaderLTS
-  Proofs.ReaderPrim Proofs.ReaderV2 Proofs.ReaderV2Run Proofs.ReaderV2Sound Proofs.ReaderV2Final.
+  Proofs.ReaderPrim Proofs.ReaderV2 Proofs.ReaderV2Run Proofs.ReaderV2Sound Proofs.ReaderV2Final
+  Proofs.ReaderV1 Proofs.ReaderV1Run Proofs.ReaderV1Final.
 Import ListNotations.
 Open Scope Z_scope.
 
@@ -72,6 +74,34 @@ Theorem C02_contract_v2_uncompressed :
         (GFetch (FData hwm (fetch_response compress l (g_conn g) k) (Z.of_nat k) false)).
 Proof. exact contract_v2_uncompressed. Qed.
 Print Assumptions C02_contract_v2_uncompressed.
+
+(* proved: the full statement restricted to layouts of UNCOMPRESSED v0 / v1 messages
+   ([legacy_ok]: format 0 or 1, codec 0, keys and values below 2^29 bytes, v0 records carry no
+   timestamp, no record headers): for every such layout (gaps between offsets included),
+   every fetch offset o >= 0 with data at or after it — the batch containing o may begin before
+   it: readMessageV1 skips those messages — and every legal cut, the Batch.ReadMessage loop
+   returns exactly the stored records in [o, f), in order, fields as stored, then io.EOF, and
+   leaves Conn.offset = f >= o. *)
+Theorem C02_batch_decode_exact_legacy_uncompressed_partial :
+  forall (compress : Z -> list N -> list N) (decomp : Z -> list N -> option (list N)) log l o k hwm,
+  log_ok log -> layout_ok log l -> Forall legacy_ok l -> 0 <= o ->
+  from_offset l o <> [] -> valid_cut compress l o k -> hwm <> o ->
+  forall fuel, (length (all_items (from_offset l o)) + 4 <= fuel)%nat ->
+  exists ms f,
+    fetch_run decomp fuel o hwm (fetch_response compress l o k) (Z.of_nat k) false = Some (ms, EEOF, f)
+    /\ fetch_ok log o ms f.
+Proof. exact batch_decode_exact_legacy_uncompressed. Qed.
+Print Assumptions C02_batch_decode_exact_legacy_uncompressed_partial.
+
+Theorem C02_contract_legacy_uncompressed :
+  forall (compress : Z -> list N -> list N) (decomp : Z -> list N -> option (list N)) log l k hwm fuel g,
+  log_ok log -> layout_ok log l -> Forall legacy_ok l -> 0 <= g_conn g ->
+  from_offset l (g_conn g) <> [] -> valid_cut compress l (g_conn g) k -> hwm <> g_conn g ->
+  (length (all_items (from_offset l (g_conn g))) + 4 <= fuel)%nat ->
+  ev_ok (fetch_run decomp fuel) log g
+        (GFetch (FData hwm (fetch_response compress l (g_conn g) k) (Z.of_nat k) false)).
+Proof. exact contract_legacy_uncompressed. Qed.
+Print Assumptions C02_contract_legacy_uncompressed.
 
 (* C02_progress (not proved): a response holding one complete batch with a record >= o delivers
    at least one record *)
